@@ -283,7 +283,7 @@ class Unit:
         info = dict(qname=qname, file=rel, sub=sub, requires=[c.text for c in req],
                     ensures=[(c.tag, c.text) for c in ens], stub=is_stub, sig=sig, props=list(props))
         self.fn_overlays[qname] = info
-        if left18 and not is_stub:
+        if left18 and not is_stub and '&mut' in sig:     # (no `&mut` parameter: there is no frame to lose, the guard is encoded precisely)
             self.imprecise[qname] = 'a match guard the extractor cannot lower (R18) remains: this Verus loses the frame of &mut parameters across match guards'
         prov['rules'] = dict(stats)
         prov['stubbed_here'] = is_stub
